@@ -147,10 +147,6 @@ Qed.
 Lemma rf_fixed_canon P cfg st src : Inv st -> rec_read_from_fixed P cfg st src = rf_canon P st src.
 Proof. intros I. apply rf_fixed_canon_sane. apply size_cases; auto. Qed.
 
-(* same optional capabilities, possibly different fast paths *)
-Definition same_but_fast_paths (a b : ucfg) : Prop :=
-  c_flush a = c_flush b /\ c_hij a = c_hij b /\ c_push a = c_push b /\
-  c_rdl a = c_rdl b /\ c_wdl a = c_wdl b /\ c_dup a = c_dup b.
 
 Lemma step_fixed_agree P a b st c :
   same_but_fast_paths a b -> Inv st -> step_fixed P a st c = step_fixed P b st c.
